@@ -69,7 +69,7 @@ def mk_batches(ex, st, shape, symbolic_kinds=False):
     return out
 
 
-def run_recover(ctx, n_ks=2, shape=((2, 0), (1, 1)), loop_bound=None, symbolic_kinds=False, sealed_shape=None, track_sealed_call=False):
+def run_recover(ctx, n_ks=2, shape=((2, 0), (1, 1)), loop_bound=None, symbolic_kinds=False, sealed_shape=None, track_sealed_call=False, reader_error_at=None):
     """returns (executor, paths, env)"""
     fn = ctx.prog.find(r'^db::<impl>::recover$')
     env = Env()
@@ -274,6 +274,11 @@ def run_recover(ctx, n_ks=2, shape=((2, 0), (1, 1)), loop_bound=None, symbolic_k
             st.emit(Ev('READER_END', site=call.site))
             return ex.mk_enum(call.dst_ty, 'None')
         r.data['pos'] = i + 1
+        if reader_error_at is not None and i == reader_error_at:
+            # the batch reader reports this (complete, but damaged) batch as an error: checksum mismatch
+            st.emit(Ev('READER_ERR', args={'idx': i}, site=call.site))
+            err = ex.mk_enum('error::Error', 'JournalRecovery', [ex.mk_enum('journal::error::RecoveryError', 'ChecksumMismatch')])
+            return ex.mk_enum(call.dst_ty, 'Some', [ex.mk_enum('Result<Batch, Error>', 'Err', [err])])
         st.emit(Ev('BATCH_READ', args={'idx': i}, site=call.site))
         return ex.mk_enum(call.dst_ty, 'Some', [ex.mk_enum('Result<Batch, Error>', 'Ok', [r.data['batches'][i]])])
 
